@@ -300,6 +300,37 @@ fn main() {
             emit(&mut sink, &rt, &[Op::Declare(vec![ty.clone()], false), Op::Validate(vec![t.clone()]), Op::Session(vec![t.clone()]), Op::ApiIns(vec![t.clone()])], "matrix");
         }
     }
+    // ---- positional batches: for every declared type and every value that does NOT conform to it, a batch of
+    //      conforming tuples with the one non-conforming tuple at every position (first / middle / last) — in
+    //      particular batches that differ from a conforming one only in a vector's length or an integer's
+    //      width — through every validating / storing path; the batch must be rejected as a whole each time
+    for ty in all_types() {
+        let conforming: Vec<Value> = all_values().into_iter().filter(|v| ty.matches(v)).collect();
+        if conforming.is_empty() {
+            continue;
+        }
+        for bad in all_values().into_iter().filter(|v| !ty.matches(v)) {
+            // prefer a conforming value of the same constructor as the offender (a "near miss")
+            let near = conforming.iter().find(|c| std::mem::discriminant(*c) == std::mem::discriminant(&bad)).unwrap_or(&conforming[0]).clone();
+            let other = conforming.last().unwrap().clone();
+            let mut ops = vec![Op::Declare(vec![ty.clone(), SchemaType::Int], false)];
+            for pos in 0..3usize {
+                let mut vals = vec![near.clone(), other.clone(), near.clone()];
+                vals[pos] = bad.clone();
+                let batch: Vec<Tuple> = vals.into_iter().enumerate().map(|(i, v)| Tuple::new(vec![v, Value::Int64(i as i64)])).collect();
+                ops.push(Op::Validate(batch.clone()));
+                ops.push(Op::Session(batch.clone()));
+                ops.push(Op::ApiIns(batch.clone()));
+                if batch.iter().all(textable) {
+                    ops.push(Op::Ins(batch.clone()));
+                }
+            }
+            // and the conforming batch is accepted
+            let okb: Vec<Tuple> = vec![near.clone(), other.clone()].into_iter().enumerate().map(|(i, v)| Tuple::new(vec![v, Value::Int64(i as i64)])).collect();
+            ops.push(Op::ApiIns(okb));
+            emit(&mut sink, &rt, &ops, "positional");
+        }
+    }
     // ---- random histories on a binary relation
     // (vector types have no working statement syntax in a schema declaration: "+r(c: vector)" is a parse error; they are declared through the API)
     let text_types = [SchemaType::Int, SchemaType::Float, SchemaType::String, SchemaType::Bool, SchemaType::Named("Email".to_string())];
@@ -314,11 +345,22 @@ fn main() {
                 .map(|_| if via_text { rng.pick(&text_types).clone() } else { rng.pick(&all_types()).clone() })
                 .collect()
         };
-        let sc = gen_schema(&mut rng, via_text);
+        let mut sc = gen_schema(&mut rng, via_text);
+        if !via_text && rng.chance(1, 3) {
+            let k = rng.below(2) as usize;
+            sc[k] = SchemaType::Vector { dim: Some(*rng.pick(&[2usize, 3])) };
+        }
         let good = |rng: &mut Rng, ty: &SchemaType, pool: &[Value]| -> Value {
             let ok: Vec<&Value> = pool.iter().filter(|v| ty.matches(v)).collect();
             if ok.is_empty() || rng.chance(1, 5) {
-                rng.pick(pool).clone()
+                // half of the deviations are near misses: same constructor as a conforming value (another vector
+                // length, another integer width), which only the declared type tells apart
+                let near: Vec<&Value> = pool.iter().filter(|v| !ty.matches(v) && ok.iter().any(|c| std::mem::discriminant(*c) == std::mem::discriminant(*v) || matches!((*c, *v), (Value::Int64(_), Value::Int32(_)) | (Value::Vector(_), Value::VectorInt8(_)) | (Value::VectorInt8(_), Value::Vector(_))))).collect();
+                if !near.is_empty() && rng.chance(1, 2) {
+                    (*rng.pick(&near)).clone()
+                } else {
+                    rng.pick(pool).clone()
+                }
             } else {
                 (*rng.pick(&ok)).clone()
             }
@@ -342,15 +384,21 @@ fn main() {
             };
             match rng.below(20) {
                 0..=5 => {
-                    let n = rng.range(1, 3);
+                    let n = rng.range(1, 4);
                     ops.push(Op::Ins((0..n).map(|_| mk(&mut rng, &text_vals)).collect()));
                 }
                 6..=8 => {
-                    let n = rng.range(1, 2);
+                    let n = rng.range(1, 4);
                     ops.push(Op::ApiIns((0..n).map(|_| mk(&mut rng, &all_values())).collect()));
                 }
-                9 | 10 => ops.push(Op::Validate(vec![mk(&mut rng, &all_values())])),
-                11 | 12 => ops.push(Op::Session(vec![mk(&mut rng, &all_values())])),
+                9 | 10 => {
+                    let n = rng.range(1, 3);
+                    ops.push(Op::Validate((0..n).map(|_| mk(&mut rng, &all_values())).collect()));
+                }
+                11 | 12 => {
+                    let n = rng.range(1, 3);
+                    ops.push(Op::Session((0..n).map(|_| mk(&mut rng, &all_values())).collect()));
+                }
                 13..=15 => {
                     let tm = |rng: &mut Rng| -> Vec<Arg> {
                         match rng.below(5) {
